@@ -1,29 +1,89 @@
 """C03 - a CSG expression denotes one solid however it is built, shared or evaluated."""
-import os
+import os, re
+from concurrent.futures import ThreadPoolExecutor
 from vlib import core, cases, libs
 
 LEVEL = "proof"
-PROPS = ["MV/Props/C03.lean"]
+PROPS = ["MV/Props/C03.lean", "MV/Props/C03Batch.lean"]
 ASSUMPTIONS = [
     "theorems (toLeaf_denotes, history_independent, program_independent for EVERY store, collapse oracle and forcing history; sub_sub, nested_eq_flat, transform_chain, batch_eq_fold) are about MV/Model/Csg.lean "
-    "with solids in an arbitrary Boolean algebra with a transform action; BatchUnion/BatchBoolean/SimpleBoolean are abstracted to the fold they are proved equal to, i.e. correctness of one Boolean is C02's business",
+    "with solids in an arbitrary Boolean algebra with a transform action; in that model BatchUnion/BatchBoolean/SimpleBoolean return a fresh leaf whose value is postulated (Respects) to be the n-ary operation",
+    "that postulate is PROVED for BatchUnion/BatchBoolean in MV/Props/C03Batch.lean about MV/Model/CsgBatch.lean (line-by-line: start/chunk, greedy partition, singleton vs Compose, erase/push_back/swap, MeshCompare heap, "
+    "groups of four) for every chunk size K>=2, every overlap oracle and every NumVert oracle: termination with fuel children.size(), no out-of-range index, every child used exactly once (multiset of original operands), "
+    "result = union of the children in every SolidAlg given SimpleBoolean=union, Compose=union on pairwise disjoint parts, box-disjoint => disjoint; sets of the partition pairwise non-overlapping; pop = greatest (NumVert, serial), "
+    "heap arrangement irrelevant. Correctness of ONE SimpleBoolean / Compose is C02's business; std::make_heap/pop_heap/push_heap are trusted to implement a heap for the comparator",
     "tie: the real evaluator's use-count bits and finalize events (MANIFOLD_VERIF hooks) on seeded API programs; the model run with those bits must emit identical events (same leaves, same integer transform matrices, same order)",
+    "tie (batch): kMaxUnionSize and the pop-group width are read from src/csg_tree.cpp on every run; per BatchUnion call the hooks onBatchUnionRound/onBatchBoolean/onBatchBooleanPop/onBatchBooleanPush report children, start, "
+    "sets, impls, pops and pushes by leaf identity; the model, given the children's real bounding boxes and the NumVert of every created leaf, must reproduce all of it (the box of a created leaf is modelled as the join of its parts' boxes)",
     "the action laws hold in exact arithmetic and for injective transforms; rounding of m*Mat4(n) products and bounding-box-disjoint => disjoint are geometric hypotheses",
+    "IsCancelled / progress counters inside BatchUnion/BatchBoolean are not modelled here (C15); the MANIFOLD_PAR task-group path is not run here (same pops, serials and push order by construction; C04/C06 cover schedules)",
 ]
+
+CSG = os.path.join(core.REPO, "src", "csg_tree.cpp")
+
+
+def batch_constants():
+    """kMaxUnionSize and the pop-group width, read from the source (the model takes them as parameters)."""
+    src = re.sub(r"//[^\n]*|/\*.*?\*/", "", open(CSG).read(), flags=re.S)
+    mk = re.search(r"constexpr\s+size_t\s+kMaxUnionSize\s*=\s*(\d+)\s*;", src)
+    mg = re.search(r"for\s*\(\s*size_t\s+i\s*=\s*0\s*;\s*i\s*<\s*(\d+)\s*&&\s*heapNodes\.size\(\)\s*>\s*1\s*;\s*i\+\+\s*\)", src)
+    if not mk or not mg:
+        rp = core.write_replay("C03", "batch-constants", {"broken": "cannot find kMaxUnionSize / the pop-group loop in src/csg_tree.cpp", "kMaxUnionSize": bool(mk), "group_loop": bool(mg)})
+        raise core.Violation("BatchUnion/BatchBoolean no longer have the shape the model transliterates (constants not found)", rp, no_input=True)
+    K, grp = int(mk.group(1)), int(mg.group(1))
+    if K < 2 or grp < 1:
+        rp = core.write_replay("C03", "violation-batch-nontermination", {"kMaxUnionSize": K, "group": grp,
+                               "input": "Manifold::BatchBoolean({a, b}, OpType::Add).Status() for any two leaves a, b",
+                               "why": "batchUnion_terminates needs K >= 2 and grp >= 1: with K < 2 a round removes min(size,K) <= 1 children and adds one, so `while (children.size() > 1)` never ends"})
+        raise core.Violation("kMaxUnionSize=%d / group=%d: BatchUnion / BatchBoolean do not terminate" % (K, grp), rp)
+    return K, grp
 
 
 def run(ctx):
-    cov = core.proof_gate(ctx.pid, PROPS, ["MV.Props.C03"] if ctx.tier == "thorough" else None)
-    cov["checker_cmd"] = "cd lean && lake build MV mvdriver && lake env lean <#print axioms for every theorem of MV/Props/C03.lean>"
-    cov["trusted_base"] = core.TRUSTED_BASE + ["MANIFOLD_VERIF hooks onCsgVisit/onCsgFinalize/onCsgFinalized and VerifForce/VerifRoot accessors"]
+    K, grp = batch_constants()
     libs.build("ser")
-    exe = core.compile_harness("c03_csg", [os.path.join(core.ROOT, "harness", "c03_csg.cpp")], libs.cxx_flags("ser"), libs=libs.link_flags("ser"))
+    with ThreadPoolExecutor(max_workers=2) as ex:
+        f1 = ex.submit(core.compile_harness, "c03_csg", [os.path.join(core.ROOT, "harness", "c03_csg.cpp")], libs.cxx_flags("ser"), None, 1800, libs.link_flags("ser"))
+        f2 = ex.submit(core.compile_harness, "c03_batch", [os.path.join(core.ROOT, "harness", "c03_batch.cpp")], libs.cxx_flags("ser"), None, 1800, libs.link_flags("ser"))
+        cov = core.proof_gate(ctx.pid, PROPS, ["MV.Props.C03", "MV.Props.C03Batch"] if ctx.tier == "thorough" else None)
+        exe, exeb = f1.result(), f2.result()
+    cov["checker_cmd"] = "cd lean && lake build MV mvdriver && lake env lean <#print axioms for every theorem of MV/Props/C03.lean and MV/Props/C03Batch.lean>"
+    cov["trusted_base"] = core.TRUSTED_BASE + ["MANIFOLD_VERIF hooks onCsgVisit/onCsgFinalize/onCsgFinalized, onBatchUnionRound/onBatchBoolean/onBatchBooleanPop/onBatchBooleanPush and VerifForce/VerifRoot accessors",
+                                               "libstdc++ std::make_heap/pop_heap/push_heap (the model keeps the heap as a list and pops the greatest entry; batchBoolean_heap_arrangement_irrelevant)"]
     n, m = (400, 150) if ctx.tier == "quick" else (6000, 1500)
     cs, _ = cases.run_case_harness(ctx, exe, [n, m])
     c2 = cases.correspond(ctx, cs, "CsgOpNode::ToLeafNode events vs MV.Csg model run with the logged oracle bits")
+    csb, stats = cases.run_case_harness(ctx, exeb, [K, grp])
+
+    def search(ctx, c):
+        # model != implementation on a BatchUnion/BatchBoolean call: look for an input on which the REAL result is wrong
+        for seed in (ctx.seed + 101, ctx.seed + 202, ctx.seed + 303):
+            more, _ = cases.run_case_harness(ctx, exeb, [K, grp], env={"VERIF_SEED": str(seed), "VERIF_TIER": "thorough" if K <= 50 else ctx.tier})
+            for x in more:
+                if not x["prop"].startswith("ok"):
+                    return {"found_by": "focused search after a correspondence mismatch", "seed": seed, "case": x["tag"], "oracle": x["prop"],
+                            "mismatching_case": c["tag"], "model": core.clip(c.get("model", ""), 2000), "implementation": core.clip(c["exp"], 2000)}
+        return None
+
+    c3 = cases.correspond(ctx, csb, "BatchUnion rounds / BatchBoolean heap steps (hooks) vs MV.CsgBatch model on the real bounding boxes and NumVert", search=search)
     cov.update(c2)
+    for k in ("evaluations", "model_vs_impl_compared", "distinct_nontrivial", "mismatches", "property_failures"):
+        cov[k] = c2[k] + c3[k]
+    cov["driver_wall_s"] = round(c2["driver_wall_s"] + c3["driver_wall_s"], 1)
+    kinds = dict(c2["kinds"])
+    for k, v in c3["kinds"].items():
+        kinds[k] = kinds.get(k, 0) + v
+    cov["kinds"] = kinds
+    cov["parts"] = {"evaluator": c2, "batch": c3}
+    cov["batch_stats"] = stats
+    cov["batch_constants"] = {"kMaxUnionSize": K, "group": grp}
+    cov["exhaustive"] = False
     cov["rule"] = ("evaluator programs: 2-6 leaves, 3-60 commands among bool(add/sub/int)/batch(0-4 operands)/xf(7 integer matrices)/drop/force with handle rebinding; "
                    "history programs: lattice boxes in [0,4]^3 under Booleans, integer translations and axis flips, evaluated lazily, eagerly, under a random forcing history and shared-subexpression-first; "
-                   "all four must classify 729 voxel centres identically with equal Status and volume; distinct = distinct request lines")
-    cov["samples"] = [{"case": c["tag"], "request": core.clip(c["req"], 240), "answer": core.clip(c["exp"], 240)} for c in cs[:3]]
+                   "all four must classify 729 voxel centres identically with equal Status and volume; "
+                   "batch: N in {0..6, 8, 10, 13, 25, 5..20 all-cluster, K-2..K+3, 1.1K, 2K+1} operands (K = kMaxUnionSize read from the source) laid out as disjoint pegs + plates crossing every peg + clusters of "
+                   "mutually overlapping boxes on a quarter lattice, shuffled, through Manifold::BatchBoolean(Add), += chains, balanced trees of temporaries, -= chains and BatchBoolean(Subtract) (negative side), and "
+                   "BatchBoolean(Intersect) of 0..20 nested boxes; every BatchUnion/BatchBoolean call replayed on the model; real result checked for exact volume, runOriginalID = operands, point membership; "
+                   "distinct = distinct request lines")
+    cov["samples"] = [{"case": c["tag"], "request": core.clip(c["req"], 240), "answer": core.clip(c["exp"], 240)} for c in (cs[:2] + [x for x in csb if x["req"]][:2])]
     return cov
